@@ -80,15 +80,20 @@ def WSt.flush (w : WSt) (o : WOpts) (comp : Bytes → Option Bytes) : WSt :=
   let w2 := w1.writeBlock o comp valuesFrame w.values
   { w2 with enc := { w2.enc with bytes := [] }, values := [] }
 
+def bodySmall : Option Bytes → Bool
+  | none => true
+  | some b => decide (b.length + 1 < two63)
+
+/-- `Writer.Write` before the threshold test: the value record `uvarint id ++ zcode.Append(body)`
+    is appended to the values buffer -/
+def WSt.addValue (w : WSt) (enc' : EncSt) (id : Nat) (body : Option Bytes) : WSt :=
+  { w with enc := enc', values := w.values ++ uvarint id ++ zappend body,
+           small := w.small && decide (id < two63) && bodySmall body }
+
 def WSt.step (o : WOpts) (comp : Bytes → Option Bytes) (w : WSt) : WOp → WSt
   | .write v =>
     let (enc', id) := encTy v.cid v.ty w.enc
-    let bodySmall := match v.body with
-      | none => true
-      | some b => decide (b.length + 1 < two63)
-    let w1 := { w with enc := enc',
-                       values := w.values ++ uvarint id ++ zappend v.body,
-                       small := w.small && decide (id < two63) && bodySmall }
+    let w1 := w.addValue enc' id v.body
     if flushCond w1.values.length w1.enc.bytes.length o.thresh then w1.flush o comp else w1
   | .endStream =>
     let w1 := w.flush o comp
